@@ -247,10 +247,23 @@ def verdict_store(ck, prog, config, clause):
         def __init__(s, prog, fn):
             FactRule.__init__(s, prog, fn)
             s.n = 0
+            # boolean locals that are only ever cleared after their initialisation (the "all good so far" flag)
+            s.flags = set()
+            s.verdict_vars = set()
+            for st_ in walk_stmts(fn.body):
+                if st_.k == 'decl' and st_.e is not None and any(
+                        callee_name(c_) == 'validate_chunk' for c_ in calls_in(st_.e)):
+                    s.verdict_vars.add(st_.var.decl)
+            for st_ in walk_stmts(fn.body):
+                if st_.k == 'decl' and st_.e is not None and const_value(st_.e) == 1 and 'ool' in (st_.var.t or ''):
+                    s.flags.add(st_.var.decl)
 
         def after_call(s, c2, call, ts, mask):
             if callee_name(call) == 'validate_chunk' and c2.fn is s.fn:
-                ts = (ts - frozenset(['stored'])) | frozenset(['pending'])
+                if 'unacc' in ts:
+                    s.violate(c2, 'verdict-unexamined', 'the next chunk is classified while the previous verdict was never '
+                              'looked at for the overall result', inst='accumulate')
+                ts = (ts - frozenset(['stored'])) | frozenset(['pending', 'unacc'])
             if callee_name(call) == 'validate_file' and c2.fn is s.fn:
                 ts = ts | frozenset(['file-verdict'])
             return ts
@@ -259,9 +272,22 @@ def verdict_store(ck, prog, config, clause):
             for expr, origins, before, after in refined:
                 if 'validate_file' in origin_names(origins) and after == M1:
                     ts = ts | frozenset(['file-mismatch'])
+                if 'validate_chunk' in origin_names(origins) and after == P1:
+                    ts = ts - frozenset(['unacc'])          # the verdict is known to be "valid" on this path
+            # "already not all good": nothing left to record
+            op, l, r = atom_cmp(node.e, label)
+            sl = strip(l)
+            if sl is not None and sl.k == 'var' and sl.decl in s.flags and op == '==' and const_value(r) == 0:
+                ts = ts - frozenset(['unacc'])
             return ts
 
         def on_assign(s, c2, lhs, rhs, op, value, ts):
+            sl_ = strip(lhs)
+            if c2.fn is s.fn and sl_ is not None and sl_.k == 'var' and sl_.decl in s.flags and const_value(rhs) == 0:
+                ts = ts - frozenset(['unacc'])              # recorded in the overall result
+            elif c2.fn is s.fn and sl_ is not None and sl_.k == 'var' and sl_.decl in s.verdict_vars and \
+                    const_value(rhs) is not None and const_value(rhs) != 1 and 'pending' in ts | frozenset(['pending']):
+                ts = ts | frozenset(['unacc'])              # downgraded verdict: to be recorded again
             if strip(lhs).k == 'mem' and strip(lhs).op == 'valid' and rhs is not None:
                 # any classification stored for the chunk (R3 restricts what can be stored as 1)
                 ts = (ts - frozenset(['pending'])) | frozenset(['stored'])
@@ -276,6 +302,11 @@ def verdict_store(ck, prog, config, clause):
             return ts
 
         def on_return(s, c2, node, mask, ts):
+            if c2.fn is s.fn and mask & (P1 | POS) and 'unacc' in ts:
+                s.violate(c2, 'verdict-unexamined', 'overall success can be returned on a path where the last chunk '
+                          'verdict was stored but never examined: the loop is left (detached header: after the '
+                          'dictionary) before a failed chunk is recorded in the overall result', inst='accumulate',
+                          node=node)
             if c2.fn is s.fn and mask & ~Z:
                 s.n += 1
                 if 'pending' in ts:
@@ -294,6 +325,11 @@ def verdict_store(ck, prog, config, clause):
           'the verdict of validate_chunk() is stored into idx->valid before the next chunk / exit'
           if 'store' not in by else by['store'].msg, vc.file, by['store'].node.line if 'store' in by else vc.line,
           path=by['store'].path if 'store' in by else None, config=config)
+    ck.ob(clause, 'R3.verdict-store', vc.name, 'accumulate', 'accumulate' not in by,
+          'every chunk verdict is examined for the overall result before the next chunk or a success return'
+          if 'accumulate' not in by else by['accumulate'].msg, vc.file,
+          by['accumulate'].node.line if 'accumulate' in by else vc.line,
+          path=by['accumulate'].path if 'accumulate' in by else None, config=config)
     ck.ob(clause, 'R3.verdict-store', vc.name, 'invalidate-all', 'invalidate-all' not in by,
           'on a whole-data mismatch every chunk is marked failed' if 'invalidate-all' not in by else
           by['invalidate-all'].msg, vc.file, by['invalidate-all'].node.line if 'invalidate-all' in by else vc.line,
